@@ -1165,6 +1165,13 @@ class NP:
     def ravel(self, a, **k):
         return self.sp.lift(a).ravel()
 
+    def iscomplexobj(self, a):
+        """the atoms of a generic array stand for real values (a complex field is two real ones): obligations decided here are statements about real data"""
+        return False
+
+    def isrealobj(self, a):
+        return True
+
     def isscalar(self, a):
         return isinstance(a, (int, float, Fraction, X))
 
